@@ -380,24 +380,23 @@ def convDigits (off base : Nat) : List Nat → Option (List Nat)
         else (convDigits off base r).map (dig :: ·)
       else convDigits off base r
 
-/-- mpz_set_str (mpz/set_str.c:35).  `none` = return -1 (x unchanged); `some v` = return 0, x = v. -/
-def mpz_set_str (base : Int) (s : List Nat) : Option Int :=
-  let s := s.takeWhile (· != 0)
-  let off := if base > 36 then 224 else 0
-  if base > 62 then none else
-  let (c, str) := skipSpace s
-  let (negative, c, str) := if c == 45 then (true, (rd str).1, (rd str).2) else (false, c, str)
-  -- `digit_value[c] >= (base == 0 ? 10 : base)`: an `int` comparison, so a negative base always fails
-  if (digitValue off c : Int) ≥ (if base = 0 then 10 else base) then none else
-  let (base, c, str) :=
-    if base = 0 then
-      if c == 48 then
-        let (c1, str1) := rd str
-        if c1 == 120 || c1 == 88 then (16, (rd str1).1, (rd str1).2)
-        else if c1 == 98 || c1 == 66 then (2, (rd str1).1, (rd str1).2)
-        else (8, c1, str1)
-      else (10, c, str)
-    else (base.toNat, c, str)
+/-- `if (c == '-') { negative = 1; c = *str++; }` (set_str.c:63) -/
+def setStrSign (c : Nat) (str : List Nat) : Bool × Nat × List Nat :=
+  if c == 45 then (true, (rd str).1, (rd str).2) else (false, c, str)
+
+/-- base 0: choose the base from the leading characters (set_str.c:74-93) -/
+def setStrPrefix (base : Int) (c : Nat) (str : List Nat) : Nat × Nat × List Nat :=
+  if base = 0 then
+    if c == 48 then
+      let (c1, str1) := rd str
+      if c1 == 120 || c1 == 88 then (16, (rd str1).1, (rd str1).2)
+      else if c1 == 98 || c1 == 66 then (2, (rd str1).1, (rd str1).2)
+      else (8, c1, str1)
+    else (10, c, str)
+  else (base.toNat, c, str)
+
+/-- skip leading zeros and white space, empty ⇒ 0, else convert the digits (set_str.c:95-131) -/
+def setStrTail (off base : Nat) (negative : Bool) (c : Nat) (str : List Nat) : Option Int :=
   let (c, str) := skipZeroSpace c str
   if c == 0 then some 0 else
   match convDigits off base (c :: str) with
@@ -405,6 +404,18 @@ def mpz_set_str (base : Int) (s : List Nat) : Option Int :=
   | some ds =>
       let xsize := mpn_set_str base ds
       some (if negative then -(Int.ofNat (val xsize)) else Int.ofNat (val xsize))
+
+/-- mpz_set_str (mpz/set_str.c:35).  `none` = return -1 (x unchanged); `some v` = return 0, x = v. -/
+def mpz_set_str (base : Int) (s : List Nat) : Option Int :=
+  let s := s.takeWhile (· != 0)
+  let off := if base > 36 then 224 else 0
+  if base > 62 then none else
+  let (c, str) := skipSpace s
+  let (negative, c, str) := setStrSign c str
+  -- `digit_value[c] >= (base == 0 ? 10 : base)`: an `int` comparison, so a negative base always fails
+  if (digitValue off c : Int) ≥ (if base = 0 then 10 else base) then none else
+  let (b, c, str) := setStrPrefix base c str
+  setStrTail off b negative c str
 
 /-- mpz_out_str (mpz/out_str.c): bytes written and return value.  Legal bases 2..62, -2..-36, and 0 (= 10);
     base > 62 writes nothing and returns 0. -/
